@@ -2,5 +2,6 @@ SPECIFICATION GSpec
 CONSTANTS
   Mode = "texts"
   MaxLen = 3
+  SteerOverlapBytes = TRUE
   NA = 15
 CHECK_DEADLOCK FALSE
